@@ -372,6 +372,23 @@ func (s *fileScn) q4(m int) {
 	if err != nil {
 		return
 	}
+	// the mapping is keyed by the hardware address (chaddr): a client identifier option - naming this, another
+	// listed or an unlisted address, or no address at all - does not change who is asking
+	switch s.r.Intn(7) {
+	case 0:
+		req.Options[uint8(dhcpv4.OptionClientIdentifier)] = append([]byte{1}, mac...)
+	case 1:
+		req.Options[uint8(dhcpv4.OptionClientIdentifier)] = append([]byte{1}, fileMac((m+1)%(s.nm+1))...)
+	case 2:
+		req.Options[uint8(dhcpv4.OptionClientIdentifier)] = append([]byte{1}, fileMac((m+s.nm)%(s.nm+1))...)
+	case 3:
+		req.Options[uint8(dhcpv4.OptionClientIdentifier)] = []byte{1, 'p', 'x', 'e'}
+	case 4:
+		req.Options[uint8(dhcpv4.OptionClientIdentifier)] = append([]byte{255, 0, 0, 0, 1, 0, 3, 0, 1}, fileMac((m+1)%(s.nm+1))...)
+	}
+	if again, err := dhcpv4.FromBytes(req.ToBytes()); err == nil {
+		req = again
+	}
 	before := resp.ToBytes()
 	var (
 		out  *dhcpv4.DHCPv4
